@@ -31,6 +31,7 @@ type token struct {
 	shown  bool
 	posAt  int       // offset in the clean terminal text
 	shownT time.Time // when the chunk containing it was read from the pty
+	suffix string    // bytes sent in the same chunk right after the name (head of a multibyte character, muted chunks only)
 }
 
 type mute struct {
@@ -58,6 +59,12 @@ type sess struct {
 	fdir   string
 	eng    string // engine and index violations are reported under ("" = session, idx)
 	eidx   int
+
+	// content dimension (content.go)
+	contents    []*content
+	pending     *content // content sent, sentinel token not yet
+	fresh       bool     // an un-muting announcement has been read and nothing sent since
+	mutedSuffix string   // appended to every chunk sent while muted (head of a multibyte character)
 }
 
 func (z *sess) ev(f string, a ...any) {
@@ -92,9 +99,14 @@ func (z *sess) send() *token {
 	t := &token{name: fmt.Sprintf("T%d_%d;", z.idx, z.ntok), afterM: -1}
 	if m := z.muted(); m != nil {
 		t.afterM = len(z.mutes) - 1
+		t.suffix = z.mutedSuffix
 	}
+	if z.pending != nil {
+		z.pending.sentinel, z.pending = t, nil
+	}
+	z.fresh = false
 	t.sent = time.Now()
-	if err := z.out.Send(t.name); err != nil {
+	if err := z.out.Send(t.name + t.suffix); err != nil {
 		z.r.Inconclusive("fake shell cannot send: " + err.Error())
 		z.bad = true
 	}
@@ -155,6 +167,7 @@ func (z *sess) ctrlO() {
 		m := z.muted()
 		if l2, ok := z.s.Wait(`Unmuting`, m.mPos, ProgressBound); ok && l2[0] < loc[0] {
 			m.uObs, m.uPos, m.ended = z.s.P.TimeOfClean(l2[0]), l2[0], true
+			z.fresh = true
 		} else {
 			z.r.Inconclusive("a new mute began while the harness believed the old one in force, without an un-muting announcement before it")
 			z.bad = true
@@ -163,6 +176,7 @@ func (z *sess) ctrlO() {
 	}
 	m := &mute{typed: typed, mObs: z.s.P.TimeOfClean(loc[0]), mPos: loc[0]}
 	z.mutes = append(z.mutes, m)
+	z.fresh = false
 	z.r.Count("mute_periods", 1)
 	z.ev("muting announced")
 }
@@ -189,6 +203,7 @@ func (z *sess) awaitUnmute(lastSend time.Time) {
 	m.uObs = z.s.P.TimeOfClean(loc[0])
 	m.uPos = loc[0]
 	m.ended = true
+	z.fresh = true
 	z.ev("unmuting announced")
 }
 
@@ -399,9 +414,23 @@ func runSession(r *mon.Run, bin string, idx int, withCtrlO bool) {
 		time.Sleep(time.Duration(20+rng.IntN(60)) * time.Millisecond)
 	}
 	cycles := r.N(2, 6)
+	// content dimension: its own PRNG stream, so that the schedules drawn from rng stay what they were
+	crng := r.Rng("content", idx)
+	nk := len(contentKinds)
+	w := idx - idx/4 // ordinal of this session among those with Ctrl+O (index%4 != 3)
+	if withCtrlO {
+		// control: before the first Ctrl+O everything is displayed as sent
+		z.sendContent(crng, whereBeforeMute, w%nk, w%2 == 1, nil, false)
+		z.send()
+	}
 	if !withCtrlO {
 		// no Ctrl+O in the whole session: nothing may ever be suppressed
 		for i := 0; i < 40 && !z.bad; i++ {
+			if i%4 == 1 {
+				// every class of content, with and without a character split across chunks, and
+				// (i = 5, 25) with a status line in the middle of it
+				z.sendContent(crng, whereNoCtrlO, (i/4+idx)%nk, (i/4)%2 == 1, nil, i%10 == 5)
+			}
 			z.send()
 			if i%10 == 5 {
 				z.statusLine()
@@ -415,6 +444,17 @@ func runSession(r *mon.Run, bin string, idx int, withCtrlO bool) {
 		kind := []string{"flood", "flood", "slow", "gap", "pre", "burst"}[rng.IntN(6)]
 		kinds = append(kinds, kind)
 		z.ev("cycle %d: %s", c, kind)
+		// what is sent first once this cycle's mute is over: the class of its first bytes runs
+		// through all classes over the cycles of the run; in every other group of nk cycles every
+		// chunk sent during the mute ends with the head of a multibyte character, whose tail then
+		// comes first (the mute swallowed the head)
+		p := w*cycles + c
+		ckind := (p + p/nk) % nk
+		var tail []byte
+		if (p/nk)%2 == 1 {
+			ch := newCarried(crng)
+			z.mutedSuffix, tail = string(ch.head), ch.tail
+		}
 		switch kind {
 		case "flood": // continuous flood, Ctrl+O in the middle, status lines and a second Ctrl+O while muted
 			end := time.Now().Add(time.Duration(2500+rng.IntN(1500)) * time.Millisecond)
@@ -458,6 +498,8 @@ func runSession(r *mon.Run, bin string, idx int, withCtrlO bool) {
 			if z.bad {
 				break
 			}
+			z.sendContent(crng, whereAfterUnmute, ckind, false, tail, false)
+			tail = nil
 			t := z.send() // sent after the announcement was read: must be displayed
 			_ = t
 		case "pre": // Ctrl+O with no output at all afterwards: ends after calm
@@ -470,11 +512,18 @@ func runSession(r *mon.Run, bin string, idx int, withCtrlO bool) {
 		if n := len(z.toks); n > 0 {
 			last = z.toks[n-1].sent
 		}
+		z.mutedSuffix = ""
 		z.awaitUnmute(last)
 		if z.bad {
 			break
 		}
-		// after the announcement: output is displayed again
+		// after the announcement: output is displayed again, whatever it starts with
+		if kind == "gap" {
+			// the first output after the announcement was sent inside the cycle; this is later output
+			z.sendContent(crng, whereLater, crng.IntN(nk), crng.IntN(2) == 0, nil, false)
+		} else {
+			z.sendContent(crng, whereAfterUnmute, ckind, false, tail, false)
+		}
 		z.send()
 		time.Sleep(time.Duration(50+rng.IntN(100)) * time.Millisecond)
 	}
@@ -583,13 +632,14 @@ func (z *sess) judge(withCtrlO bool) {
 			}
 		}
 	}
+	z.judgeContents(clean, withCtrlO)
 	z.r.Count("tokens_displayed", int64(nshown))
 	z.r.Count("tokens_suppressed", int64(nsupp))
 }
 
 func Run(r *mon.Run) {
-	r.Rule = "real -race binary on a pty with a fake shell over raw TLS sending numbered tokens; per session several mute cycles drawn from {continuous flood with Ctrl+O in the middle, burst, gaps of 1.5 s (must stay muted), gap above 2 s (must un-mute in between), Ctrl+O before any output}, with status lines (file requests) and a repeated Ctrl+O while muted, plus sessions without any Ctrl+O. All times come from one monotonic clock in the harness: s_i just before token i is sent, typed/announcement times as read from the pty. Verdicts are sound under load: a suppressed token with un-mute announced < 2 s after s_i; a token on the terminal before (Ctrl+O typed | previous suppressed token sent) + 2 s; a token sent after the un-muting announcement was read not displayed; a status line missing; any token missing in a session without Ctrl+O; no un-mute within 2 s + 20 s of calm while a canary request is answered. Engine stalled: the program runs with -ctrl-i <0.6-2 MB file>; (preview) Ctrl+J typed while muted must display its whole log message (header and contents); (stall) during a mute the harness stops draining the pty and types Ctrl+J so that the program's write of that message blocks holding the terminal's write lock, a token is sent 1.1-1.6 s after the previous one, the calm timer expires behind the blocked write, the harness drains again 2.3-3 s after the previous token: the suppressed token keeps the mute on for 2 s after it was sent (same rule as above, send and observation times only). Engine backlog: Ctrl+O on a terminal that does not keep up with an UN-muted flood. The harness stops draining the pty (stall) or drains it in short openings (until something has been read, at most ~2 ms) every 30-70 ms (slow), a fake shell (over /io or /i+/o) sends 250-440 chunks of 0.3-1.8 kB so that the program's writes block and a backlog forms in its output queue (never more than the queue holds, so requests are always answered); at 3-6 points of the flood a status line is generated (file request or refused input connection, each requested only after the previous request was answered, i.e. after the program accepted the line for display); then Ctrl+O is typed, 1-2 more status lines are requested while the key cannot be handled yet, and the terminal drains again (at once, or in openings every 5-20 ms until the muting announcement). After the announcement a sentinel status line is requested; lines are displayed in the order accepted, so once the sentinel is on the terminal every status line requested earlier must be on the terminal too (logical, no clock) - whether it was generated before or after Ctrl+O; the mute must then end by itself and later output be displayed. Nothing is demanded of shell tokens sent before Ctrl+O (they were waiting behind the terminal when the mute began; either fate is allowed). Control sessions (nomute) do the same without Ctrl+O: every flood token and every status line must be displayed. Non-vacuity is measured: a status line answered before Ctrl+O was typed counts as queued at the mute when it is displayed after the muting announcement, and as behind shell output when a flood token sent before it was suppressed and it is displayed after every displayed flood token; floors on both, on the number of sessions with such a line, and on the number of flood tokens suppressed. distinct = distinct (cycle kinds, token count) sessions; all sessions are non-trivial (>= 4 tokens)"
-	r.Assumptions = []string{"real-time monitoring only: gaps within 0.4 s of the 2 s boundary are not generated", "observation time >= real time, send start <= arrival time", "backlog engine: a request is answered only after its handler has handed the status line to the operator channel, and that channel is first-in first-out (both true of hsrv/iobroker/opshell as written); the size of the backlog that really forms is not assumed but measured (floors)"}
+	r.Rule = "real -race binary on a pty with a fake shell over raw TLS sending numbered tokens; per session several mute cycles drawn from {continuous flood with Ctrl+O in the middle, burst, gaps of 1.5 s (must stay muted), gap above 2 s (must un-mute in between), Ctrl+O before any output}, with status lines (file requests) and a repeated Ctrl+O while muted, plus sessions without any Ctrl+O. All times come from one monotonic clock in the harness: s_i just before token i is sent, typed/announcement times as read from the pty. Verdicts are sound under load: a suppressed token with un-mute announced < 2 s after s_i; a token on the terminal before (Ctrl+O typed | previous suppressed token sent) + 2 s; a token sent after the un-muting announcement was read not displayed; a status line missing; any token missing in a session without Ctrl+O; no un-mute within 2 s + 20 s of calm while a canary request is answered. Engine stalled: the program runs with -ctrl-i <0.6-2 MB file>; (preview) Ctrl+J typed while muted must display its whole log message (header and contents); (stall) during a mute the harness stops draining the pty and types Ctrl+J so that the program's write of that message blocks holding the terminal's write lock, a token is sent 1.1-1.6 s after the previous one, the calm timer expires behind the blocked write, the harness drains again 2.3-3 s after the previous token: the suppressed token keeps the mute on for 2 s after it was sent (same rule as above, send and observation times only). Engine backlog: Ctrl+O on a terminal that does not keep up with an UN-muted flood. The harness stops draining the pty (stall) or drains it in short openings (until something has been read, at most ~2 ms) every 30-70 ms (slow), a fake shell (over /io or /i+/o) sends 250-440 chunks of 0.3-1.8 kB so that the program's writes block and a backlog forms in its output queue (never more than the queue holds, so requests are always answered); at 3-6 points of the flood a status line is generated (file request or refused input connection, each requested only after the previous request was answered, i.e. after the program accepted the line for display); then Ctrl+O is typed, 1-2 more status lines are requested while the key cannot be handled yet, and the terminal drains again (at once, or in openings every 5-20 ms until the muting announcement). After the announcement a sentinel status line is requested; lines are displayed in the order accepted, so once the sentinel is on the terminal every status line requested earlier must be on the terminal too (logical, no clock) - whether it was generated before or after Ctrl+O; the mute must then end by itself and later output be displayed. Nothing is demanded of shell tokens sent before Ctrl+O (they were waiting behind the terminal when the mute began; either fate is allowed). Control sessions (nomute) do the same without Ctrl+O: every flood token and every status line must be displayed. Non-vacuity is measured: a status line answered before Ctrl+O was typed counts as queued at the mute when it is displayed after the muting announcement, and as behind shell output when a flood token sent before it was suppressed and it is displayed after every displayed flood token; floors on both, on the number of sessions with such a line, and on the number of flood tokens suppressed. Content dimension (session engine): what is displayed again is compared byte for byte, not only looked for. Right after the un-muting announcement of every mute cycle has been read the fake shell sends a piece of content (8-130 bytes, one in six 2-5 kB, in 1-2 chunks) and then the ordinary ASCII token as sentinel; the first bytes of the content run through the classes {lone continuation bytes 0x80-0xBF, bytes that never occur in UTF-8 / a lead byte without continuation, Latin-1 text, NUL and control bytes other than ESC and CR, well-formed 2-4-byte characters, ASCII} (class = f(session, cycle), every class equally often), and in every other group of 6 cycles every chunk sent during the mute ends with the first byte(s) of a multibyte character whose remaining byte(s) then come first after the announcement (the mute swallowed the head); the rest of the content mixes all classes. The terminal is read as in C03 (ptyx clean text: prompt redraws undone, CR LF read back as LF; the content contains neither ESC nor CR): the bytes between the end of the un-muting announcement line and the sentinel token, with complete status lines (timestamp [address] File requested: /status-n-n) taken out, must be exactly the bytes sent after the announcement was read (whole chunks of that mute displayed late, in order, may precede them; whether they were early is the business of the timing rules). Controls, same comparison between the previous un-muted token and the sentinel: once before the first Ctrl+O of every session, after the in-cycle un-mute of 'gap' cycles (later output), and ten times in every session without Ctrl+O (all classes, every other one with a multibyte character split across two chunks, two of them with a status line requested and awaited in the middle, which exercises the taking-out). Floors: regions compared after an un-mute = sessions with Ctrl+O x cycles, each class 1/6 of that, half of them starting with a continuation byte, tails of really swallowed heads, controls per place, regions with a status line taken out. The token schedules and every timing rule are unchanged (the content has its own PRNG stream; the sentinel is the token that was sent at that point before). distinct = distinct (cycle kinds, token count) sessions; all sessions are non-trivial (>= 4 tokens)"
+	r.Assumptions = []string{"real-time monitoring only: gaps within 0.4 s of the 2 s boundary are not generated", "observation time >= real time, send start <= arrival time", "content dimension: the line editor writes shell output to the terminal as it is except LF -> CR LF, and takes the prompt away and redraws it around each write with cursor-left/erase sequences that ptyx's clean text undoes (the reading C03's byte-exact engine relies on); ESC and CR are never sent", "backlog engine: a request is answered only after its handler has handed the status line to the operator channel, and that channel is first-in first-out (both true of hsrv/iobroker/opshell as written); the size of the backlog that really forms is not assumed but measured (floors)"}
 	bin, err := crs.Build(r.Work, "")
 	if err != nil {
 		r.Inconclusive("cannot build the binary: " + err.Error())
@@ -659,6 +709,21 @@ func Run(r *mon.Run) {
 		r.Eval(1)
 	}
 	r.Floor("repeat_cycles", int64(nrp))
+	// content dimension
+	nCtl := int64(n / 4)             // sessions without Ctrl+O (index%4 == 3)
+	nMute := int64(n) - nCtl         // sessions with Ctrl+O
+	nPts := nMute * int64(r.N(2, 6)) // mute cycles = places where content is the first output after an un-mute
+	r.Floor("content:"+whereAfterUnmute, nPts)
+	for _, k := range contentKinds {
+		r.Floor("content_after_unmute:"+k, nPts/int64(len(contentKinds)))
+	}
+	r.Floor("content_after_unmute_starting_with_continuation_byte", nPts/2)
+	r.Floor("content_after_unmute_tail_of_swallowed_character", int64(r.N(1, 20)))
+	r.Floor("content:"+whereBeforeMute, nMute)
+	r.Floor("content:"+whereNoCtrlO, 10*nCtl)
+	r.Floor("content_regions_with_status_line_taken_out", 2*nCtl)
+	r.Floor("content_regions_compared", nPts+nMute+10*nCtl)
+	r.Floor("content_bytes_compared", 20*(nPts+nMute+10*nCtl))
 	r.Floor("sessions", int64(n))
 	r.Floor("mute_periods", int64(n))
 	r.Floor("tokens_suppressed", 20)
